@@ -338,10 +338,17 @@ def _stub_class():
 
     class StubCF:
         send_packet = Crazyflie.send_packet
+        # helpers that send_packet delegates to in the current tree (none in older trees)
+        for _n in ('_send_packet_locked', '_link_error_cb', '_cancel_answer_timers'):
+            if hasattr(Crazyflie, _n):
+                locals()[_n] = getattr(Crazyflie, _n)
+        del _n
 
         def __init__(self, ver):
             self.link = _Link()
             self._send_lock = threading.Lock()
+            self._send_lock_owner = None
+            self._deferred_link_error = None
             self._answer_patterns = {}
             self.packet_sent = Caller()
             self.platform = PlatformService(self)
